@@ -40,7 +40,7 @@ def pfor_q(prop, n, thr, w=None, mw=None, part=None, kf=(), to=900):
                  unwind_fn=LIB9, timeout=to, kf=list(kf), weight=3 * n)
 
 
-def group_q(prop, n, cap=None, to=600):
+def group_q(prop, n, cap=None, to=3600):
     d = {"N": n, "PROP": prop}
     nm = "group-n%d" % n
     if cap is not None:
@@ -49,12 +49,12 @@ def group_q(prop, n, cap=None, to=600):
                  timeout=to, weight=n)
 
 
-def delta_q(prop, n, signed, to=900):
+def delta_q(prop, n, signed, to=3600):
     return Query("delta-%s-n%d" % ("signed" if signed else "unsigned", n), "array/delta.c", ["varintDelta.c"] + T,
                  defs={"N": n, "SIGNED": signed, "PROP": prop}, checks="mem", unwind=14 + 9 * n, unwind_fn=LIB9, timeout=to, weight=2 * n)
 
 
-def rle_q(prop, n, hdr, cap=None, to=900):
+def rle_q(prop, n, hdr, cap=None, to=3600):
     d = {"N": n, "HDR": hdr, "PROP": prop}
     nm = "rle-%s-n%d" % ("hdr" if hdr else "plain", n)
     if cap is not None:
@@ -72,7 +72,7 @@ def rle_repl_q(prop, n, repl, hdr, to=900):
                  extra=["--max-field-sensitivity-array-size", "300"])
 
 
-def dict_q(prop, n, cap=None, to=900):
+def dict_q(prop, n, cap=None, to=3600):
     d = {"N": n, "PROP": prop}
     nm = "dict-n%d" % n
     if cap is not None:
@@ -85,7 +85,7 @@ ELIAS_UW = {"floorLog2": 65, "varintBitWriterWrite": 66, "varintBitReaderRead": 
             "varintEliasGammaDecode": 66, "lg2": 65, "memset": 60, "varintElias*": 6}
 
 
-def elias_q(prop, code, n, lgs=(), cap=None, to=900):
+def elias_q(prop, code, n, lgs=(), cap=None, to=3600):
     d = {"N": n, "CODE": code, "PROP": prop}
     nm = "elias-%s-n%d" % ("gamma" if code == 0 else "delta", n)
     for i, l in enumerate(lgs):
@@ -96,7 +96,7 @@ def elias_q(prop, code, n, lgs=(), cap=None, to=900):
                  weight=2 * n)
 
 
-def bp_q(prop, kind, n, B=None, bw=None, cap=None, to=900):
+def bp_q(prop, kind, n, B=None, bw=None, cap=None, to=3600):
     d = {"N": n, "KIND": kind, "PROP": prop}
     nm = "bp128-%s-n%d" % (["enc32", "enc64", "delta32", "delta64"][kind], n)
     if B:
@@ -116,27 +116,37 @@ def codec_queries(prop, tier):
     """All array-codec queries for one property section (2, 3, 13 or 16)."""
     qs = []
     q = tier == "quick"
-    # ---- FOR
+    # ---- FOR: quick = 11 classes covering every width once, n = 3; thorough = all 72 classes at n = 3 (round trip part),
+    #      the other parts and n = 2, 4 on the 11 classes (budget: a few hundred queries of 10-100 s)
+    qcls = for_classes("quick")
     for (w, mw) in for_classes(tier):
-        for n in ((3,) if q else (2, 3, 4)):
+        inq = (w, mw) in qcls
+        for n in ((3,) if (q or not inq) else (2, 3, 4)):
             if prop == 2:
-                parts = (1, 2, 3) if (not q or (w, mw) in ((1, 1), (8, 9), (4, 4))) else (1,)
+                parts = (1, 2, 3) if ((not q and inq) or (w, mw) in ((1, 1), (8, 9), (4, 4))) else (1,)
                 for part in parts:
-                    qs.append(for_q(2, n, w, mw, part=part))
+                    qs.append(for_q(2, n, w, mw, part=part, to=600 if q else 3600))
             elif prop == 13:
-                for cap in ((n - 1,) if q else range(0, n)):
-                    qs.append(for_q(13, n, w, mw, cap=cap))
+                for cap in ((n - 1,) if (q or not inq) else range(0, n)):
+                    qs.append(for_q(13, n, w, mw, cap=cap, to=600 if q else 3600))
             else:
-                qs.append(for_q(prop, n, w, mw))
+                qs.append(for_q(prop, n, w, mw, to=600 if q else 3600))
+    # FOR at the count-varint boundary (240 / 241 elements; 2287 / 2288 ran out of memory at 16 GB): semi-concrete instances
+    for (n, w) in (((241, 1),) if q else ((240, 1), (241, 1), (241, 2), (241, 8), (240, 8))):
+        uf = {f: n + 2 for f in ["varintFORAnalyze", "varintFOREncode", "varintFORDecode", "varintFORDecodeBlock"]}
+        qs.append(Query("for-boundary-n%d-W%d" % (n, w), "array/for_lit.c", ["varintFOR.c"] + T, defs={"N": n, "W": w, "PROP": prop}, checks="mem",
+                        unwind=n * 8 + 30, unwind_fn=uf, timeout=900 if q else 3600, mem_gb=16, weight=3 if n < 1000 else 30,
+                        extra=["--max-field-sensitivity-array-size", str(n * 8 + 64)]))
     # ---- PFOR (no capacity parameter of its own: C13 covers it through adaptive)
     if prop in (2, 3, 16):
         if q:
             cells = [(2, 95, 1, 1), (2, 95, 8, 9), (2, 90, 2, 2), (2, 99, 4, 5)]
         else:
-            cells = [(n, t, w, mw) for n in (2, 3) for t in (90, 95, 99) for (w, mw) in ((1, 1), (2, 2), (3, 3), (4, 5), (5, 4), (6, 6), (7, 8), (8, 9), (1, 9), (8, 1))]
+            cells = [(2, t, w, mw) for t in (90, 95, 99) for (w, mw) in ((1, 1), (2, 2), (3, 3), (4, 5), (5, 4), (6, 6), (7, 8), (8, 9), (1, 9), (8, 1))]
+            cells += [(3, t, w, mw) for t in (90, 95, 99) for (w, mw) in ((1, 1), (8, 9))]
         for (n, t, w, mw) in cells:
             for part in ((1, 2, 3) if prop == 2 else (None,)):
-                qs.append(pfor_q(prop, n, t, w, mw, part=part))
+                qs.append(pfor_q(prop, n, t, w, mw, part=part, to=900 if q else 3600))
     # ---- group
     for n in ((3,) if q else (1, 2, 3, 4)):
         if prop == 13:
@@ -146,7 +156,7 @@ def codec_queries(prop, tier):
             qs.append(group_q(prop, n))
     # ---- delta
     if prop in (2, 3):
-        for n in ((2,) if q else (1, 2, 3, 4)):
+        for n in ((2,) if q else (1, 2, 3)):
             for s in (0, 1):
                 qs.append(delta_q(prop, n, s))
     # ---- RLE
@@ -188,19 +198,28 @@ def codec_queries(prop, tier):
                     qs.append(bp_q(13, kind, n, cap=cap))
             else:
                 qs.append(bp_q(prop, kind, n))
-        bws = ((1, 9) if q else (0, 1, 2, 7, 8, 9, 16, 31, 32)) if kind in (0, 2) else ((1, 33) if q else (0, 1, 7, 8, 9, 31, 32, 33, 63, 64))
-        if q and prop in (2, 13) and kind in (1, 3):
-            # quick budget: the 64-bit scaled round trips cost 2-13 minutes each; quick keeps enc64 at bit width 1,
-            # the rest (and delta64) runs in the thorough tier; C03/C16 keep all four kinds in quick
-            bws = (1,) if kind == 1 else ()
+        wide = kind in (1, 3)
+        if q:
+            bws = (1, 33) if wide else (1, 9)
+            if prop in (2, 13) and wide:
+                # quick budget: the 64-bit scaled round trips cost 2-13 minutes each; quick keeps enc64 at bit width 1,
+                # the rest (and delta64) runs in the thorough tier; C03/C16 keep all four kinds in quick
+                bws = (1,) if kind == 1 else ()
+            ns = (5,)
+        else:
+            bws = (0, 1, 8, 33, 64) if wide else (0, 1, 2, 7, 8, 9, 16, 31, 32)
+            ns = (5,) if wide else (4, 5, 9)
         for bw in bws:
-            for n in ((5,) if q else (4, 5, 9)):
+            for n in ns:
+                if n == 9 and bw not in (1, 9):
+                    continue
+                to = 900 if q else 5400
                 if prop == 13:
-                    qs.append(bp_q(13, kind, n, B=4, bw=bw, cap=n - 1))
+                    qs.append(bp_q(13, kind, n, B=4, bw=bw, cap=n - 1, to=to))
                     if not q:
-                        qs.append(bp_q(13, kind, n, B=4, bw=bw, cap=4))
+                        qs.append(bp_q(13, kind, n, B=4, bw=bw, cap=4, to=to))
                 else:
-                    qs.append(bp_q(prop, kind, n, B=4, bw=bw))
+                    qs.append(bp_q(prop, kind, n, B=4, bw=bw, to=to))
     for x in qs:
         x.name = "P%d-" % prop + x.name if not x.name.startswith("P") else x.name
     return qs
